@@ -436,13 +436,20 @@ func c03Run(c *lib.Ctx) {
 		for _, q := range qsStatic {
 			toks := refTokens(q)
 			for _, all := range []bool{true, false} {
-				for b := 0; b < 2; b++ {
+				for b := 0; b < 3; b++ {
 					cs := c03Case{Ops: ops, Query: strconv.Quote(q), All: all}
-					if b == 1 {
-						if len(toks) == 0 {
+					if b >= 1 {
+						if len(toks) == 0 || (b == 2 && len(toks) < 2) {
 							continue
 						}
+						// boost the last term, and (separately) the first one: a boost must not reach other terms
 						cs.Boost = toks[len(toks)-1]
+						if b == 2 {
+							cs.Boost = toks[0]
+							if cs.Boost == toks[len(toks)-1] {
+								continue
+							}
+						}
 					}
 					v, obs := c03Check(db, want, ref, cs)
 					c.Rep.Evaluations++
@@ -563,7 +570,7 @@ func init() {
 	_ = strings.Join
 	lib.Register(&lib.Check{
 		ID: "C03", Level: "model_checking",
-		Rule:      "(a) every subset of <=3 entries of the 28-entry pool (+2 larger sets) loaded by the real loader x {22 one-word, 90 two-word, 4 long (>10 terms), 3 special} queries x all-platforms on/off x {no boost, boost 2 on the query's last term}: SearchUniversal(UseNLP=false, Limit>=N) result set and scores against an independent scorer that scans the command texts (parameters read through the accessor: " + accMode + "); (b) every history of length <=3 (quick) / <=4 (thorough) over 28 operations {LoadDatabase x4, LoadDatabaseWithPersonal x12 (absent/empty/1/2-entry notebook), UpdateDatabase x4, direct growth x2, direct shrink, direct assignment of a list of another length, literal construction x2}: the same comparison after the last step for 53 queries x all-platforms on/off, plus NLP-on search compared bit-for-bit with a freshly loaded copy of the same commands. evaluations = searches compared; non-trivial = searches with a non-empty answer",
+		Rule:      "(a) every subset of <=3 entries of the 31-entry pool (+2 larger sets) loaded by the real loader x {22 one-word, 90 two-word, 4 long (>10 terms), 3 special} queries x all-platforms on/off x {no boost, boost 2 on the query's last term, boost 2 on its first term}: SearchUniversal(UseNLP=false, Limit>=N) result set and scores against an independent scorer that scans the command texts (parameters read through the accessor: " + accMode + "); (b) every history of length <=3 (quick) / <=4 (thorough) over 28 operations {LoadDatabase x4, LoadDatabaseWithPersonal x12 (absent/empty/1/2-entry notebook), UpdateDatabase x4, direct growth x2, direct shrink, direct assignment of a list of another length, literal construction x2}: the same comparison after the last step for 53 queries x all-platforms on/off, plus NLP-on search compared bit-for-bit with a freshly loaded copy of the same commands. evaluations = searches compared; non-trivial = searches with a non-empty answer",
 		Assume:    []string{"host platform pinned to linux (vhost), map order pinned (vmap)", "tokenizer reference composed from the repository's exported NormalizeText and StopWords", "for >10 terms only the stated envelope is required"},
 		QuickSecs: 150, ThorSecs: 1500, Graph: true,
 		Run: c03Run, Replay: c03Replay,
